@@ -30,11 +30,11 @@ SOURCES = [('param/serializer.py', 'JSONSerialization.serialize_parameters'),
 BUDGET_S = {'quick': 45, 'thorough': 400}
 EXHAUSTIVE = {'quick': False, 'thorough': False}
 TRUSTED = [
-    'statements in lean/ParamVerif/Props/C15.lean (Valid = Param.stateOK, jsonNative, yearsFourDigits, finite)',
+    'statements in lean/ParamVerif/Props/C15.lean (Valid = Param.validB, nativeElems/jsonNative, inStatement, finite)',
     'spec-side oracle lean/ParamVerif/Json/Spec.lean spec15 (decidable restatement: rebuilt == state with equal type, strict JSON, per-value, subset)',
     'harness/props/c15.py + _c15c16.py adapter: exact-type canonical values (floats as integer ratios, dates as field tuples), json.loads tree of the text, strict-JSON flag via parse_constant; strings in date-typed positions are canonicalised into (year value, year width, month, day[, time]) fields',
     'correspondence is differential testing: model = code only on the cases executed',
-    'json.dumps/json.loads modelled as tree identity on JSON-native values (repr/float round-trip of CPython assumed); strftime/strptime at field level: %Y prints the year unpadded (glibc), strptime %Y needs 4 digits',
+    'json.dumps/json.loads modelled as tree identity on JSON-native values (repr/float round-trip of CPython assumed); strftime/strptime at field level: the year is written zero-padded to four digits (param _strftime helper), strptime %Y needs 4 digits',
 ]
 ASSUMPTIONS = [
     'finite numbers; naive datetimes (a dt.date held by a Date parameter is outside the statement); the sign of -0.0 is not observed',
@@ -220,8 +220,8 @@ def cases(rng, tier, worker, nworkers):
             yield json.load(open(f))['case']
         yield from directed()
     n_random = 6000 if tier == 'quick' else 120000 // nworkers
-    opts_clean = {'nonfinite': 0.02, 'exotic': 0.0, 'small_year': 0.0, 'cdr_datetime': 0.0}
-    opts_all = {'nonfinite': 0.03, 'exotic': 0.12, 'small_year': 0.15, 'cdr_datetime': 0.1, 'findings': True}
+    opts_clean = {'nonfinite': 0.02, 'exotic': 0.0, 'small_year': 0.15}
+    opts_all = {'nonfinite': 0.03, 'exotic': 0.12, 'small_year': 0.3, 'findings': True}
     for i in range(n_random):
         yield G.gen_case(rng, param, G.TYPES15, opts_clean if i % 3 else opts_all)
 
@@ -287,14 +287,8 @@ def classify(case, impl, fail):
         return None
     pv = {n: (s, d) for n, s, d in impl.get('per_value', [])}.get(pname)
     t = decl['type']
-    years = [x['v'][0] for x in G.walk(v) if x['t'] in ('date', 'datetime')]
-    if what.startswith('deserialize_value raised ValueError') and t in G.DATE_TYPES and years and min(years) < 1000:
-        return 'year-below-1000'
     if what.startswith('serialize_value/deserialize_value does not restore') and pv and 'ok' in pv[1]:
         got = pv[1]['ok']
-        if t == 'CalendarDateRange' and v['t'] == 'tuple' and all(x['t'] == 'datetime' for x in v['v']):
-            if got == {'t': 'tuple', 'v': [{'t': 'date', 'v': x['v'][:3]} for x in v['v']]}:
-                return 'calendardaterange-datetime-truncated'
         if t in ('Tuple', 'List', 'Dict'):
             inner = v['v'] if t != 'Dict' else [x for _, x in v['v']]
             has_tuple = any(y['t'] == 'tuple' for x in inner for y in G.walk(x))
